@@ -20,6 +20,7 @@ import DSymVerif.Proofs.Delaney2dChi
 import DSymVerif.Proofs.Delaney2dSum
 import DSymVerif.Proofs.Delaney2dExamples
 import DSymVerif.Proofs.Delaney2dClassify
+import DSymVerif.Proofs.Delaney2dConstr
 
 namespace DSymVerif.C08
 open DSymVerif.DS DSymVerif.D2 DSymVerif.SpecC08
@@ -392,6 +393,57 @@ theorem curvature_cover (s s' : Sym) (g : Good2d s) (g' : Good2d s') (k : Nat) (
   refine ⟨_, _, curvature_eq_chamberSum g, curvature_eq_chamberSum g', ?_⟩
   rw [Frac.toRat_ofRat, Frac.toRat_ofRat]
   exact chamberSum_cover k π hmaps hfib hm01 hm12
+
+/-! ### 7. the invariances for the model's own constructions (no side hypotheses) -/
+
+/-- **renumbering**: every symbol `b` that is isomorphic to a good 2D symbol `a` in the sense of
+    C03 (`IsIso`: a bijection of the chambers commuting with the operations and preserving the
+    adjacent branching numbers — in particular every renumbering) is itself complete and has the
+    same curvature answer, in either representation. -/
+theorem curvature_renumber_iso (a b : DSymData) (f : Nat → Nat) (iso : CanonP.IsIso f a b) (ra rb : Rep)
+    (ga : Good2d ⟨a, ra⟩) (hb : ValidSym b) :
+    Good2d ⟨b, rb⟩ ∧ curvature ⟨b, rb⟩ = curvature ⟨a, ra⟩ :=
+  curvature_of_iso iso ra rb ga hb
+
+/-- … and the library's own renumbering construction (the tail of `canonical`: `build_set` +
+    `build_sym_using_vs` through a bijective chamber map) returns such a symbol. -/
+theorem curvature_renumber_model (s : DSymData) (rs rc : Rep) (g : Good2d ⟨s, rs⟩) (hsz : 1 ≤ s.size)
+    (m : Array Nat) (hm : CanonP.PermOn s.size m) :
+    ∃ c, rebuild s m = .ok c ∧ Good2d ⟨c, rc⟩ ∧ curvature ⟨c, rc⟩ = curvature ⟨s, rs⟩ := by
+  have hdim : s.dim = 2 := g.dim
+  obtain ⟨c, hc, hcv, iso⟩ := CanonP.rebuild_isIso (show ValidSym s from g.valid) hsz (by omega) hm
+  obtain ⟨gc, e⟩ := curvature_of_iso iso rs rc g hcv
+  exact ⟨c, hc, gc, e⟩
+
+example : Good2d ex632 ∧ 1 ≤ exData.size := ⟨ex632_good, by decide +kernel⟩
+
+/-- **dualisation**: the model of `derived::dual` returns (no panic) a good 2D symbol with the
+    same curvature answer. -/
+theorem curvature_dual_model (s : DSymData) (rs rt : Rep) (g : Good2d ⟨s, rs⟩) (hsz : 1 ≤ s.size) :
+    ∃ t, dual s = .ok t ∧ Good2d ⟨t, rt⟩ ∧ curvature ⟨t, rt⟩ = curvature ⟨s, rs⟩ :=
+  curvature_of_dual rs rt g hsz
+
+/-- **covers**: for `derived::cover` with a compatible sheet map, if the orbit lengths of the
+    cover divide the degrees of the base (adjacent pairs; `cover_is_covering` of C05) and its far
+    operations commute (the same divisibility for the pair (0,2)), the cover is a good 2D symbol
+    and its curvature is the number of sheets times the curvature of the base. -/
+theorem curvature_cover_model (s : DSymData) (rs rc : Rep) (g : Good2d ⟨s, rs⟩) (hsz : 1 ≤ s.size)
+    (n : Nat) (hn : 1 ≤ n) (σ : Nat → Nat → Nat → Nat) (hσ : SheetCompat s.dset n σ)
+    (c : DSymData) (hc : cover s n σ = .ok c) (hfar : FarCommute c.dset)
+    (hdiv : ∀ i d r m, i < s.dim → 1 ≤ d → d ≤ n * s.size →
+      c.rPartial i (i + 1) d = .ok (some r) → s.mPartial i (i + 1) (cproj s.size d) = .ok (some m) → r ∣ m) :
+    Good2d ⟨c, rc⟩ ∧ ∃ K K', curvature ⟨s, rs⟩ = .ok K ∧ curvature ⟨c, rc⟩ = .ok K' ∧
+      K'.toRat = (n : ℚ) * K.toRat :=
+  curvature_of_cover rs rc g hsz n hn σ hσ c hc hfar hdiv
+
+/-- **oriented cover**: unconditionally, `oriented_cover` of a good 2D symbol is a good 2D symbol
+    (valid tables, far operations commute, complete) whose curvature is that of the symbol
+    (oriented base: the symbol itself) or twice it (double cover). -/
+theorem curvature_orientedCover (s : DSymData) (rs : Rep) (g : Good2d ⟨s, rs⟩) (hsz : 1 ≤ s.size) :
+    ∃ c, orientedCover s = .ok c ∧ Good2d ⟨c, .partialSym⟩ ∧
+      ∃ K K', curvature ⟨s, rs⟩ = .ok K ∧ curvature ⟨c, .partialSym⟩ = .ok K' ∧
+        K'.toRat = (if s.view.isOriented then 1 else 2) * K.toRat :=
+  curvature_of_orientedCover rs g hsz
 
 /-! ### open (not theorems): the statements, for the record -/
 
